@@ -262,6 +262,25 @@ def rule_deleg(ctx, rep):
                     rep.bad("R-DELEG-ALL", key, "%s::%s on %s can return without having asked the payload (a path reaches the return at line %s without passing any call that ends in `%s` on the value): for some values the handle answers differently from the value it holds" % (tr.split("::")[-1], m, st["s"], miss, tr), F.loc(b), tag)
             if hn and len(rep.samples) < 6 and tag == "default":
                 rep.sample({"rule": "R-DELEG", "impl": key, "payload_leaves": sorted(set("%s::%s on %s" % (l["trait"].split("::")[-1], l["method"], F.ts(l["self"])) for l in same))[:4]})
+        # eq and ne of one impl take the same route: either both use the same-allocation shortcut or neither does, otherwise
+        # `a == b` and `a != b` can both be true for a value that is not equal to itself (NaN) seen through two handles to it
+        pe = {}
+        for b in F.body_list:
+            imp = b.get("impl") or {}
+            if imp.get("trait") == "core::cmp::PartialEq" and b.get("name") in ("eq", "ne"):
+                st = F.ty(imp["self_ty"])
+                if st["k"] == "adt" and st.get("local") and F.path_to_handle.get(st["path"]):
+                    pe.setdefault(imp["path"], {})[b["name"]] = b
+        for ip, ms in pe.items():
+            if len(ms) != 2:
+                continue
+            r_eq = bool(L.reach(ms["eq"]["key"])[1])
+            r_ne = bool(L.reach(ms["ne"]["key"])[1])
+            ik = "%s eq/ne" % F.ts(ms["eq"]["impl"]["self_ty"])
+            if r_eq == r_ne:
+                rep.ok("R-EQ-NE", ik, "both %s the same-allocation shortcut" % ("use" if r_eq else "do without"), cfg=tag)
+            else:
+                rep.bad("R-EQ-NE", ik, "`eq` %s the same-allocation shortcut but `ne` %s: for two handles to one allocation holding a value that is not equal to itself (NaN) `a == b` and `a != b` give the same answer" % ("takes" if r_eq else "does not take", "does" if r_ne else "does not"), F.loc(ms["ne"]), tag)
         # licence shape of Arc::eq / Arc::ne
         for m, const in (("eq", 1), ("ne", 0)):
             for b in F.method("Arc", m, "PartialEq"):
@@ -272,6 +291,7 @@ def rule_deleg(ctx, rep):
                     rep.bad("R-LICENCE", b["key"], why, F.loc(b), tag)
     rep.floor("R-DELEG", 35, "comparison/hash/format methods on handle and header-slice types (default configuration: 40+)")
     rep.floor("R-LICENCE", 2, "Arc::eq and Arc::ne")
+    rep.floor("R-EQ-NE", 2, "handle impls that define both eq and ne")
     rep.floor("R-DELEG-ALL", 20, "handle-level comparison/hash/format methods")
 
 
